@@ -6,6 +6,7 @@ from vlib import rnd_u64, xhex, U64
 from props.codec_common import CODEC_TRUSTED, boundary_bundles, same_content, crcs_filled, split_out
 
 THEOREMS = ["C15_json_roundtrip", "C15_decode_encode", "C15_text_is_print", "C15_idempotent", "C15_pinned_refuted"]
+RELEASE = True          # debug and release builds of the harness (debug_assert!, overflow checks, cfg(debug_assertions))
 RULE = ("JSON <bundle>: the implementation serialises with Bundle::to_json and parses its own text back with Bundle::try_from(String); "
         "bundles drawn over the C01 domain (0-40 extension blocks plus 22/23/24/25/300-block cases, every CRC type and prior CRC state per "
         "block, dtn/ipn/none EIDs incl. names with quotes, backslashes, control characters and multi-byte UTF-8, boundary-biased u64 "
